@@ -107,7 +107,7 @@ def run_shard(spec, rec):
             if nn.in_domain(cfg, nn.expand_long(desc, cfg)):
                 run_case({"cfg": cfg, "x_long": desc, "stratum": "long_sample"}, rec)
             continue
-        cfg = nn.gen_cfg(rng, combo=combo)
+        cfg = nn.gen_cfg(rng, combo=combo, allow_default_eta=True)
         st = nn.SAMPLE_STRATA[(i // len(nn.COMBOS)) % len(nn.SAMPLE_STRATA)]
         if i % 7 == 6:
             cfg = nn.gen_cfg(rng, combo=combo, n_max=rng.choice((12, 40, 200)))
